@@ -20,7 +20,7 @@ pub fn strings_all() -> Vec<String> {
     v
 }
 
-pub const NAMES: [&str; 8] = ["", "a", "7", "-1", "+5", "18446744073709551616", "x y", "0007"];
+pub const NAMES: [&str; 11] = ["", "a", "7", "-1", "+5", "18446744073709551616", "x y", "0007", " ", "\t\u{3000}", " a "];
 
 pub fn number_strings() -> Vec<&'static str> {
     vec!["0.5", "1", "2", "-1", "NaN", "inf", "1e400", "+0.5", " 0.5", "0x10", "abc", "", "-0", "1e-400"]
